@@ -12,10 +12,10 @@ T = {
  "C06": (True, "E1", "explicit-state model checking (stateright BFS to fixpoint from every raw state) + bounded-exhaustive DFS over operation histories, on the real ring buffers vs a VecDeque reference",
          "Every valid raw state (start,len)/first of capacities 1..6 (quick) / 1..12 (thorough) x every operation of the alphabet is executed on the real Bounded/Fixed buffer (window-with-canaries, Vec, Box, array storage) and compared with a VecDeque reference; successor states are re-extracted with into_raw_parts and the search runs to fixpoint, so histories of any length over those capacities are covered. A second, unmerged DFS replays every history to depth 5/6 without any state abstraction.",
          "Capacities above 12 are not explored (no capacity-specific branch in the code, but that is an argument, not a check). Trusted: rustc/LLVM, VecDeque, stateright BFS, data independence of the buffers for the merged run.", "DESIGN.md §4 C06"),
- "C10": (True, "E2", "bounded-exhaustive enumeration of (format, channel count N, length L) and length pairs on the real slice-view functions, with a counting allocator as observer",
+ "C10": (True, "E2", "bounded-exhaustive enumeration of (format, channel count N, length L) and length pairs on the real slice-view functions, with a counting allocator as observer; in-place additions for all 12 integer formats against independent arithmetic",
          "For all 14 sample formats x N=1..32 x L=0..3N+2 the shared, mutable and boxed views are executed and compared with index arithmetic, pointer identity and live-heap accounting; in-place slice ops for every length pair up to 5 over 6 frame types (panic-before-modify on mismatch).",
          "L is bounded by 3N+2 (the code has no length-specific branch other than the divisibility test). Trusted: rustc/LLVM, the counting allocator (self-tested at start-up).", "DESIGN.md §4 C10"),
- "C11": (True, "E1", "explicit-state model checking (stateright BFS to fixpoint over detector states, witness-history replay on the real Rms) in std and no_std builds + bounded-exhaustive DFS over non-dyadic histories",
+ "C11": (True, "E1", "explicit-state model checking (stateright BFS to fixpoint over detector states, witness-history replay on the real Rms) in std and no_std builds + bounded-exhaustive DFS over non-dyadic histories + exhaustive short histories over structured values for all 14 sample formats",
          "All reachable (first, window, running-sum) states of the real Rms detector over exact dyadic alphabets, window N=1..3 (quick) / 1..4 (thorough), five frame formats, both build configurations; every next/next_squared/current/reset from every state against the exact mean of the last N squares and exact internal-state invariants. Non-dyadic inputs: every history (with reset as an action) to depth 2N+2 plus labelled long runs; sample_sqrt over every non-negative finite f32 (thorough) in both builds; the signal adaptor in the std build.",
          "Inputs outside the alphabets are covered only to depth 2N+2 and by single long runs. Trusted: libm sqrt (std), f64 recomputation as reference, stateright BFS.", "DESIGN.md §4 C11"),
  "C15": (True, "E2", "exhaustive enumeration of operand pairs (all 2048^2 for the 11-bit types, boundary lattice squared for wider types) on the real operators in all four (debug-assertions, overflow-checks) build profiles against i128 modular arithmetic",
@@ -36,9 +36,9 @@ T = {
  "C03": (True, "E2", "exhaustive enumeration of sample values x offset/gain alphabets (complete for 8/16-bit formats) and of frame widths 1..32 x 14 formats x every Frame method on the real code, against the reference arithmetic and per-channel sample application",
          "Identity laws over every value of the <=24-bit formats (thorough: <=32-bit), general add/mul laws over every 8/16-bit value x all offsets/gains of the alphabets (lattice above), bare-sample-as-frame laws; 448 frame instantiations x 9 contents x every Frame method with closure call order observed; release and overflow-checked builds.",
          "Values above 16/24 bits are covered on lattices; offsets/gains come from finite alphabets. Trusted: rustc/LLVM, hardware f32/f64 multiply, the reference conversions (C01/C02 references).", "DESIGN.md §4 C03"),
- "C04": (True, "E2", "bounded-exhaustive enumeration of adaptor programs (all trees to depth 2, all unary stacks to depth 3/4, thorough: all depth-3 trees over a small alphabet; 6 frame families incl. [i32;2] and [i64;1] whose values do not fit the float companion's mantissa) executed on the real adaptor structs against an AST interpreter with instrumented sources",
+ "C04": (True, "E2", "bounded-exhaustive enumeration of adaptor programs (all trees to depth 2, all unary stacks to depth 3/4, thorough: all depth-3 trees over a small alphabet; 7 frame families incl. [i32;2], [i64;1] and the bare sample i32 whose values do not fit the float companion's mantissa; scale probes with sources of 300 frames and delays up to usize::MAX) executed on the real adaptor structs against an AST interpreter with independent integer / float arithmetic and instrumented sources",
          "Every program of the bounded space is built from the real dasp_signal adaptors and run for source length + delays + 3 calls; frames are compared with the pointwise interpreter, every instrumented source must have been pulled exactly once per call (never under a delay's leading silence), inspect must see exactly what passes, and programs over a borrowed source must leave it at the right frame after every prefix length.",
-         "Depth and source length are bounded (depth 2 trees, stacks of 3/4, sources of <=3 frames); right operands of add_amp/mul_amp are unary stacks. Trusted: rustc/LLVM, the Frame operations (checked by C03) used pointwise by the interpreter, the forwarding wrapper.", "DESIGN.md §4 C04"),
+         "Depth and source length are bounded (depth 2 trees, stacks of 3/4, sources of <=3 frames); right operands of add_amp/mul_amp are unary stacks. Trusted: rustc/LLVM, the reference arithmetic of common::refmodel (unit-tested; the same one C01-C03 use), the forwarding wrapper.", "DESIGN.md §4 C04"),
  "C05": (True, "E2", "the same bounded-exhaustive program enumeration, with an exhaustion algebra in the interpreter (exhausted-after-T-calls per node) and exact-count oracles for until_exhausted, lift, take and interleaved output",
          "For every program: is_exhausted() before and after every next(), three further calls after exhaustion, until_exhausted()/lift() yielding exactly T frames and then None for good, interleaved output yielding exactly T x channels samples, take(n) for every n up to T+2; interleaved sources of every sample count 0..3N+1 (trailing partial frame dropped).",
          "Same bounds as C04. Trusted: rustc/LLVM, the interpreter's exhaustion algebra as stated in the property.", "DESIGN.md §4 C05"),
